@@ -132,6 +132,8 @@ def run_plan_property(prop, tier, seed, checks, nontrivial, describe, known_filt
                                 {"kind": "input", "failing_input": l, "emitted": b, "model": a, "violations": ebad[:5],
                                  "reproduce": "render the declaration (vlib/render.py) and run `kessoku` on it; the emitted function has the structure shown"})
                     break
+        if prop == "C09" and not R.violations:
+            p_e2e.pinpoint_refusal(R, ES, seed, prop)
         # fault-free runs of the compiled injectors (plain and under random provider latencies): order of provider entries,
         # returned value, termination, goroutines joined
         if prop in ("C01", "C02", "C03") and not R.violations:
